@@ -329,8 +329,13 @@ def chain_root(node):
 
 
 def aspect_of(steps):
-    """which part of a caller-owned object a store at the end of `steps` changes"""
+    """which part of a caller-owned object a store at the end of `steps` changes (None: nothing the caller can see)"""
     s = list(steps)
+    if s and s[0] == "view":           # a sliced raster: a new object sharing the cells only
+        rest = s[1:]
+        if not rest or rest[0] == "[]" or (rest[0] in ("data", "values") and len(rest) > 1):
+            return "cells"
+        return None
     while s and s[0] == "[]" and any(x != "[]" for x in s):
         s.pop(0)                 # an element of a container parameter (`arrays[i].data = ...`)
     if not s or all(x == "[]" for x in s):
@@ -564,6 +569,7 @@ class Extractor:
         for x in (a.vararg, a.kwarg):
             if x is not None:
                 roots[x.arg] = (x.arg, None)
+        containers = {x.arg for x in (a.vararg, a.kwarg) if x is not None}
         count, first = {}, {}
         for n in self.walk_own(f.node):
             tg = []
@@ -572,26 +578,48 @@ class Extractor:
             elif isinstance(n, (ast.AnnAssign, ast.AugAssign)):
                 tg = [(n.target, n.value)]
             elif isinstance(n, (ast.For, ast.AsyncFor)):
+                # `for x in p[1:]` / `for i, x in enumerate(p)`: x is an element of the caller's container
+                it, t = n.iter, n.target
+                if isinstance(it, ast.Call) and (dotted(it.func) or [None])[-1] in ("enumerate", "reversed", "list", "tuple", "sorted") \
+                        and it.args:
+                    if (dotted(it.func) or [None])[-1] == "enumerate" and isinstance(t, ast.Tuple) and len(t.elts) == 2:
+                        t = t.elts[1]
+                    it = it.args[0]
                 tg = [(n.target, None)]
+                if isinstance(t, ast.Name):
+                    tg = [(t, ast.Subscript(value=it, slice=ast.Constant(value=0), ctx=ast.Load()))]
+                    if t is not n.target:
+                        tg.append((n.target.elts[0], None))
             elif isinstance(n, (ast.With, ast.AsyncWith)):
                 tg = [(it.optional_vars, None) for it in n.items if it.optional_vars is not None]
             for t, v in tg:
                 for nm in ast.walk(t):
                     if isinstance(nm, ast.Name) and isinstance(nm.ctx, ast.Store):
                         count[nm.id] = count.get(nm.id, 0) + 1
-                        first.setdefault(nm.id, v if isinstance(t, ast.Name) and isinstance(n, ast.Assign) else None)
+                        first.setdefault(nm.id, []).append(v if isinstance(t, ast.Name) and isinstance(n, (ast.Assign, ast.For, ast.AsyncFor))
+                                                           else None)
+        def alias_of(v):
+            cr = chain_root(v) if isinstance(v, (ast.Name, ast.Attribute, ast.Subscript)) else None
+            if not cr or cr[0] not in roots:
+                return None
+            steps = [x for x in cr[1] if x != "[]"]
+            if not steps:
+                if len(cr[1]) == 0 or roots[cr[0]][0].lstrip("^") in containers:
+                    return roots[cr[0]]                   # the object itself / an element of a container parameter (`*arrays`)
+                # `x = p[a:b]`: for a raster a NEW object (own name / attrs / coords) that shares only the cells
+                return (roots[cr[0]][0], "view") if roots[cr[0]][1] in (None, "view", "data", "values") else None
+            if len(steps) == 1 and roots[cr[0]][1] is None and steps[0] in ("attrs", "coords", "data", "values") and cr[1][-1] == steps[0]:
+                return (roots[cr[0]][0], steps[0])
+            return None
         changed = True
         while changed:
             changed = False
-            for nm, v in first.items():
-                if nm in roots or count.get(nm) != 1 or v is None:
+            for nm, vs in first.items():
+                if nm in roots or any(v is None for v in vs):
                     continue
-                if isinstance(v, ast.Name) and v.id in roots:
-                    roots[nm] = roots[v.id]
-                    changed = True
-                elif isinstance(v, ast.Attribute) and isinstance(v.value, ast.Name) and v.value.id in roots \
-                        and roots[v.value.id][1] is None and v.attr in ("attrs", "coords", "data", "values"):
-                    roots[nm] = (roots[v.value.id][0], v.attr)
+                al = {alias_of(v) for v in vs}           # every binding of the name is the same view of the same parameter
+                if len(al) == 1 and None not in al:
+                    roots[nm] = al.pop()
                     changed = True
         if f.parent is not None:
             for nm, r in self.roots_of(f.parent).items():
@@ -622,7 +650,9 @@ class Extractor:
                 return
             r = self.rooted(f, expr)
             if r:
-                out.setdefault(r[0], set()).add(aspect_of(list(r[1]) + list(extra)))
+                asp = aspect_of(list(r[1]) + list(extra))
+                if asp:
+                    out.setdefault(r[0], set()).add(asp)
 
         def fresh_value(v):
             if isinstance(v, ast.Call):
@@ -711,6 +741,8 @@ class Extractor:
         def through(steps, aspects):
             """aspects of the caller's object written when the callee writes `aspects` of what `steps` denotes"""
             s = [x for x in steps if x != "[]"]
+            if "view" in s:
+                return {"cells"} if aspects & {"cells"} else set()
             if not s:
                 return set(aspects)
             if s[0] in ("attrs", "coords"):
